@@ -3,6 +3,7 @@ import AkVerif.Lemmas.Interleave
 import AkVerif.Lemmas.InterleaveFmt
 import AkVerif.Lemmas.InterleaveLive
 import AkVerif.Lemmas.InterleaveWorld
+import AkVerif.Lemmas.InterleaveAdapters
 /-!
 # C16 — request ids are unique per connection under concurrent use
 
@@ -309,9 +310,10 @@ theorem new_allocates_ok : Gen.C16.newAllocates = true := by decide
 /-- **independent connections count on their own**: a connection made from an address gets an
 implementation object of its own with the counter at 0 (ids enabled) — whatever address the other
 connections were made from; every connection and implementation object that existed stays as it was
-and no existing connection refers to the new object. -/
+and no existing connection refers to the new object.  (`w.WF`: every connection refers to an existing
+implementation object — true of every reachable world, `reachable_wf`.) -/
 theorem new_fresh_counter (w : World) (cp : List Char) (ids : Bool)
-    (hwf : ∀ (c : Nat) (cn : Conn), w.conns[c]? = some cn → cn.impl < w.impls.length) :
+    (hwf : w.WF) :
     let r := w.newImpl cp ids
     r.1.conns[r.2]? = some { impl := w.impls.length, adapters := [] } ∧
     r.1.impls[w.impls.length]? = some { ctr := if ids then some 0 else none, cp := cp } ∧
@@ -332,6 +334,24 @@ theorem new_fresh_counter (w : World) (cp : List Char) (ids : Bool)
       intro hge
       rw [List.getElem?_eq_none (by omega)] at hi; cases hi
     simp [r, World.newImpl, List.getElem?_append_left hlt, hi]
+
+/-- **every world a caller can reach is well formed**: after any history of operations from the empty world
+(new connections, derived connections, `add_adapter()`, dicts, requests, concurrent batches) every
+connection refers to an implementation object that exists — the hypothesis of `new_fresh_counter`. -/
+theorem reachable_wf (ops : List Op) : (runOps Gen.C16.cfg (World.empty, []) ops).1.WF :=
+  wf_runOps Gen.C16.cfg ops _ wf_empty
+
+/-- `new_fresh_counter` **for reachable worlds**, without a hypothesis: whatever happened before, a
+connection made from an address counts from 0 on an implementation object of its own, which no existing
+connection refers to, and everything that existed is what it was. -/
+theorem new_fresh_counter_reachable (ops : List Op) (cp : List Char) (ids : Bool) :
+    let w := (runOps Gen.C16.cfg (World.empty, []) ops).1
+    let r := w.newImpl cp ids
+    r.1.conns[r.2]? = some { impl := w.impls.length, adapters := [] } ∧
+    r.1.impls[w.impls.length]? = some { ctr := if ids then some 0 else none, cp := cp } ∧
+    (∀ (c : Nat) (cn : Conn), w.conns[c]? = some cn → r.1.conns[c]? = some cn ∧ cn.impl ≠ w.impls.length) ∧
+    (∀ (i : Nat) (im : Impl), w.impls[i]? = some im → r.1.impls[i]? = some im) ∧ r.1.dicts = w.dicts :=
+  new_fresh_counter _ cp ids (reachable_wf ops)
 
 /-- every connection class of the source has a constructor that provably passes `conn_data` on to
 `_HttpConnBase.__init__`, which takes `parent_conn.conn_impl` (re-decided whenever the source changes) -/
@@ -630,16 +650,11 @@ theorem parCore_total (w : World) (i : Nat) (im : Impl) (threads : List (List Pa
     rw [hout]
     exact ⟨_, rfl⟩
 
-/-- **sent, then something raised**: whatever happens after the request was handed to the opener (an
-answer that is processed, an exception of the opener, an answer whose processing raises), the world
-and the headers that went out are the same — the number the request took stays taken.  (Tied to the
-source by `no_other_writer`: nothing reachable from a request gives a number back.) -/
-theorem outcome_keeps_number (w : World) (c : Nat) (src : HdrSrc) (d : Bool) (o : Outcome) :
-    (w.requestOutcome Gen.C16.cfg c src d o).map (fun r => (r.1, r.2.1)) = w.request Gen.C16.cfg c src d := by
-  unfold World.requestOutcome
-  cases w.request Gen.C16.cfg c src d with
-  | ok r => rfl
-  | error e => rfl
+/-! "A number stays taken after a request that failed once it was sent" is a *modelling decision*, not a
+theorem: `World.requestOutcome` is `World.request` plus a flag, it has no step that could give a number
+back.  What ties it to the source is the translator's `no_other_writer` (nothing reachable from a request
+except `_generate_request_id` assigns the counter) and the tie (requests failing in the opener / while the
+answer is processed, followed by further requests, compared id by id). -/
 
 /-- a successful sequential request either leaves the world as it is (ids disabled, or an id was
 present after the adapters) or moves the counter of its implementation object from `n` to `n + 1` and
@@ -675,8 +690,110 @@ theorem request_cases (w w' : World) (c : Nat) (cn : Conn) (im : Impl) (src : Hd
       have hall := List.any_eq_false.mp hany kv hkv
       exact hall this
 
+/-- the generated test on a header name is the test "is the id header in some capitalisation" -/
+theorem test_is_idName (k : List Char) : Gen.C16.hdrTest.holds k = isIdName k := by
+  rw [header_test_ok]; rfl
+
+/-- **`add_adapter()` on an existing connection**: the adapter is appended to the list of that connection
+object; every other connection — in particular one derived from it *earlier* — keeps its list; no
+implementation object (no counter) and no caller dict changes. -/
+theorem add_adapter_spec (w w' : World) (c : Nat) (ad : Option Adapter)
+    (h : w.addAdapter c ad = .ok w') :
+    ∃ cn, w.conns[c]? = some cn ∧
+      w'.conns[c]? = some { cn with adapters := cn.adapters ++ ad.toList } ∧
+      (∀ d, d ≠ c → w'.conns[d]? = w.conns[d]?) ∧ w'.conns.length = w.conns.length ∧
+      w'.impls = w.impls ∧ w'.dicts = w.dicts := by
+  unfold World.addAdapter at h
+  split at h
+  · cases h
+  · rename_i cn hcn
+    simp only [Except.ok.injEq] at h
+    subst h
+    have hlt : c < w.conns.length := by
+      apply Classical.byContradiction
+      intro hge
+      rw [List.getElem?_eq_none (by omega)] at hcn; cases hcn
+    refine ⟨cn, hcn, by simp [hlt], ?_, by simp, rfl, rfl⟩
+    intro d hd
+    simp [Ne.symm hd]
+
+/-- **a connection derived later inherits the whole list** of its parent as it is at that moment (own
+adapter first), so an adapter attached to the parent with `add_adapter()` before the derivation is part of
+the derived connection's chain -/
+theorem derived_inherits_adapters (w w' : World) (c c' : Nat) (cls : List Char) (ad : Option Adapter)
+    (h : w.wrap Gen.C16.cfg c cls ad = .ok (w', c')) :
+    ∃ cn cn', w.conns[c]? = some cn ∧ w'.conns[c']? = some cn' ∧
+      cn'.adapters = ad.toList ++ cn.adapters := by
+  unfold World.wrap at h
+  split at h
+  · rename_i cn hcn _
+    simp only [Except.ok.injEq, Prod.mk.injEq] at h
+    obtain ⟨hw, hc⟩ := h
+    subst hw hc
+    exact ⟨cn, { impl := cn.impl, adapters := ad.toList ++ cn.adapters }, hcn, by simp, rfl⟩
+  · rename_i cn _ hk
+    obtain ⟨k', hk'⟩ := lookup_mem _ _ _ hk
+    have := constructors_share _ hk'
+    cases this
+  · cases h
+
+/-- **what is sent when an id is present after the adapters**: it is one of the ids the caller supplied —
+the value of an id header it passed (any capitalisation) or the id of an id-supplying adapter of the
+connection's chain — and no counter moves.  (`suppliedIds` is the set the oracle of the tie accepts.) -/
+theorem request_supplied_value (w w' : World) (c : Nat) (cn : Conn) (im : Impl) (src : HdrSrc) (hasData : Bool)
+    (hs0 hs1 hs' : Headers)
+    (hc : w.conns[c]? = some cn) (hi : w.impls[cn.impl]? = some im) (hread : src.read w = some hs0)
+    (had : applyAdapters cn.adapters hs0 = some hs1)
+    (hany : hs1.any (fun kv => Gen.C16.hdrTest.holds kv.1) = true)
+    (h : w.request Gen.C16.cfg c src hasData = .ok (w', hs')) :
+    w' = w ∧ ∃ x, sentId Gen.C16.hdrName hs' = some x ∧ x ∈ suppliedIds hs0 cn.adapters := by
+  obtain ⟨e1, e2⟩ := request_supplied_id w w' c cn im src hasData hs0 hs1 hs' hc hi hread had hany h
+  refine ⟨e1, ?_⟩
+  have hfun : (fun kv : List Char × List Char => isIdName kv.1) = (fun kv => Gen.C16.hdrTest.holds kv.1) := by
+    funext kv; exact (test_is_idName kv.1).symm
+  have hany' : hs1.any (fun kv => isIdName kv.1) = true := by rw [hfun]; exact hany
+  obtain ⟨kv, hkv, hid, hsent⟩ := sentId_of_any Gen.C16.hdrName (by decide) hs1 hany'
+  exact ⟨kv.2, by rw [e2, hsent], applyAdapters_ids cn.adapters hs0 hs1 had kv hkv hid⟩
+
+/-- **an id-supplying adapter of the caller's, wherever it stands in the chain** — given to the
+constructor, inherited from the parent, or attached with `add_adapter()` after the connection was made
+(then it is the *last* of the list): every successful request through the connection sends one of the
+supplied ids and takes no number (the world, with every counter, is what it was). -/
+theorem request_id_adapter (w w' : World) (c : Nat) (cn : Conn) (im : Impl) (src : HdrSrc) (hasData : Bool)
+    (hs0 hs' : Headers) (a : Adapter)
+    (hc : w.conns[c]? = some cn) (hi : w.impls[cn.impl]? = some im) (hread : src.read w = some hs0)
+    (ha : a ∈ cn.adapters) (hv : a.idValue.isSome = true)
+    (h : w.request Gen.C16.cfg c src hasData = .ok (w', hs')) :
+    w' = w ∧ ∃ x, sentId Gen.C16.hdrName hs' = some x ∧ x ∈ suppliedIds hs0 cn.adapters := by
+  obtain ⟨a0, a1, _, r0, r1, _, _, _⟩ := request_spec w w' c cn im src hasData hs' hc hi h
+  rw [hread] at r0; cases r0
+  have hany' := applyAdapters_has_id cn.adapters hs0 a1 a ha hv r1
+  have hfun : (fun kv : List Char × List Char => Gen.C16.hdrTest.holds kv.1) = (fun kv => isIdName kv.1) := by
+    funext kv; exact test_is_idName kv.1
+  have hany : a1.any (fun kv => Gen.C16.hdrTest.holds kv.1) = true := by rw [hfun]; exact hany'
+  exact request_supplied_value w w' c cn im src hasData hs0 a1 hs' hc hi hread r1 hany h
+
+/-- **`add_adapter()` of an id-supplying adapter, then a request** through that connection: the id that is
+sent is a supplied one and no number is consumed — although the adapter was attached after the connection
+(and its implementation object) existed. -/
+theorem added_id_adapter_request (w w1 w' : World) (c : Nat) (a : Adapter) (src : HdrSrc) (hasData : Bool)
+    (hs0 hs' : Headers) (hv : a.idValue.isSome = true)
+    (hadd : w.addAdapter c (some a) = .ok w1) (hread : src.read w1 = some hs0)
+    (h : w1.request Gen.C16.cfg c src hasData = .ok (w', hs')) :
+    w' = w1 ∧ ∃ cn, w.conns[c]? = some cn ∧ ∃ x, sentId Gen.C16.hdrName hs' = some x ∧
+      x ∈ suppliedIds hs0 (cn.adapters ++ [a]) := by
+  obtain ⟨cn, hcn, hcn1, _, _, himp, _⟩ := add_adapter_spec w w1 c (some a) hadd
+  cases hi : w1.impls[cn.impl]? with
+  | none =>
+    unfold World.request at h
+    simp [hcn1, hi] at h
+  | some im =>
+    obtain ⟨e, x, hx, hmem⟩ := request_id_adapter w1 w' c _ im src hasData hs0 hs' a hcn1 hi hread
+      (by simp) hv h
+    exact ⟨e, cn, hcn, x, hx, hmem⟩
+
 /-- **history level**: whatever the caller does, in whatever order — new connections, derived
-connections of any class, caller dicts, sequential requests (with or without their own id, with or
+connections of any class, adapters attached with `add_adapter()` at any moment, caller dicts, sequential requests (with or without their own id, with or
 without a body, answered or failing in the opener or while the answer is processed), batches of concurrent requests under any schedule — every generated id that was sent
 is the rendering of a number below the present counter of its implementation object, and **no
 implementation object ever sent the same generated id twice** (the log pairs every id with the
@@ -698,6 +815,14 @@ theorem history_ids_distinct (ops : List Op) (w : World) (log : IdLog)
         split
         · rename_i w' c' hw
           obtain ⟨_, _, _, _, _, _, himp, _⟩ := derived_shares w w' c c' cls ad hw
+          rw [himp]; exact H
+        · exact H
+      | addAdapter c ad =>
+        simp only [histStep]
+        split
+        · rename_i w' hw
+          obtain ⟨_, _, _, _, _, himp, _⟩ := add_adapter_spec w w' c ad hw
+          show HistInv _ w'.impls log
           rw [himp]; exact H
         · exact H
       | req c src d o =>
@@ -801,6 +926,40 @@ example : (match demoWorld with
     | .ok (w, sent) => w.dicts == [[("Accept".toList, "*/*".toList)]] &&
         sent == [some (render "ab12".toList Gen.C16.idFormat 0), some (render "ab12".toList Gen.C16.idFormat 1),
                  some "Zmine".toList] && w.impls.map (·.ctr) == [some 2]
+    | .error _ => false) = true := by decide +kernel
+
+/-- `add_adapter()` in the middle of a history: request (number 0), an id-propagating adapter is attached
+(polite: sets the id only if the request has none), a connection is derived afterwards; the requests
+through both send the adapter's id and take no number; a connection derived BEFORE the adapter was attached
+does not see it and takes number 1 -/
+def demoAdd : Except Err (World × List (Option (List Char))) :=
+  let (w0, _) := World.empty.newImpl "ab12".toList true
+  match w0.wrap Gen.C16.cfg 0 "HttpConn".toList none with
+  | .error e => .error e
+  | .ok (w1, _) =>
+    match w1.request Gen.C16.cfg 0 (.lit []) false with
+    | .error e => .error e
+    | .ok (w2, h1) =>
+      match w2.addAdapter 0 (some (.politeId "Zin".toList)) with
+      | .error e => .error e
+      | .ok w3 =>
+        match w3.wrap Gen.C16.cfg 0 "BAuthConn".toList (some (.auth "Basic x".toList)) with
+        | .error e => .error e
+        | .ok (w4, _) =>
+          match w4.request Gen.C16.cfg 0 (.lit []) false with
+          | .error e => .error e
+          | .ok (w5, h2) =>
+            match w5.request Gen.C16.cfg 2 (.lit []) true with
+            | .error e => .error e
+            | .ok (w6, h3) =>
+              match w6.request Gen.C16.cfg 1 (.lit []) false with
+              | .error e => .error e
+              | .ok (w7, h4) => .ok (w7, [h1, h2, h3, h4].map (sentId Gen.C16.hdrName))
+
+example : (match demoAdd with
+    | .ok (w, sent) =>
+        sent == [some (render "ab12".toList Gen.C16.idFormat 0), some "Zin".toList, some "Zin".toList,
+                 some (render "ab12".toList Gen.C16.idFormat 1)] && w.impls.map (·.ctr) == [some 2]
     | .error _ => false) = true := by decide +kernel
 
 end C16
